@@ -194,6 +194,20 @@ Theorem C14_accepted_trace_is_model_run : forall c w b os g, accept c (ginit w b
 Proof. exact accepted_is_model_run. Qed.
 Print Assumptions C14_accepted_trace_is_model_run.
 
+(* ... and when the acceptor counted no finalisation against the order of the deadline, of the SHARP-deadline model (theorems (c)) *)
+Theorem C14_accepted_race_free_trace_is_strict_run : forall k w b os g,
+  accept (observed_cfg k) (ginit w b) os 0 = (g, None) -> races g = 0 ->
+  exists tr, grun (mkCfg true true k) (ginit w b) tr = Some g /\ otrace (mkCfg true true k) (ginit w b) tr = flat_map oobs os.
+Proof. exact accepted_race_free_is_strict. Qed.
+Print Assumptions C14_accepted_race_free_trace_is_strict_run.
+
+(* free workers + jobs holding one = num_workers, in every reachable state: never more run-functions in flight than workers *)
+Theorem C14_no_more_running_than_workers : forall c w b tr g,
+  grun c (ginit w b) tr = Some g ->
+  free g + sumf (fun jb => match jph jb with TWaiting | TCancelling => 1 | _ => 0 end) (jobs g) = w.
+Proof. exact workers_bound. Qed.
+Print Assumptions C14_no_more_running_than_workers.
+
 (* ---------- non-vacuity ---------- *)
 (* a complete strict run: 2 workers, search(timeout=): job 0 returns before the expiry (DONE), job 1 is running at it
    (CANCELLED, value kept), job 2 is queued at it (started, told at once, CANCELLED); sentinels after the expiry *)
